@@ -350,6 +350,21 @@ fn run_prop(ctx: &Ctx, prop: &'static str) -> Report {
 		}
 		total.count("data_url_values", r.states);
 		total.merge(r);
+		// all ordered pairs of a sub-domain with several spellings of one URI (dot segments and
+		// escapes in media type and data): owned and borrowed forms must compare alike
+		let vals = data_url_pair_values();
+		let mut r = Report::new();
+		for a in &vals {
+			for b in &vals {
+				r.evaluations += 1;
+				r.transitions += 1;
+				if let Some(v) = data_url_pair_case(a, b) {
+					r.violate(v);
+				}
+			}
+		}
+		total.count("data_url_pairs", r.transitions);
+		total.merge(r);
 	}
 	total.info.insert("bounds".into(), json!({"alphabet_level": level}));
 	total
@@ -373,6 +388,46 @@ pub fn data_url_values() -> Vec<Vec<u8>> {
 	out.sort();
 	out.dedup();
 	out
+}
+
+/// Data URLs in several spellings that are equal as URIs (the comparison of the underlying `Uri`
+/// removes dot segments and decodes escapes), and near misses.
+pub fn data_url_pair_values() -> Vec<Vec<u8>> {
+	[
+		"data:,", "data:,x", "data:a,x", "data:./a,x", "data:a/../a,x", "data:b/../a,x", "data:%61,x", "data:a,%78", "data:a/b,x", "data:a/./b,x", "data:a/b;base64,QQ==",
+		"data:a/./b;base64,QQ==", "data:;base64,QQ==", "data:;base64,QQ%3D%3D", "data:a,x/..", "data:a,", "data:A,x", "data:a,X",
+	]
+	.iter()
+	.map(|t| t.as_bytes().to_vec())
+	.filter(|t| iref::uri::data::DataUrl::new(t).is_ok())
+	.collect()
+}
+
+/// Owned and borrowed forms of the same two texts must give the same ==, cmp and hash agreement.
+pub fn data_url_pair_case(a: &[u8], b: &[u8]) -> Option<Violation> {
+	use crate::fam::uri::fnv_hash;
+	use iref::uri::data::{DataUrl, DataUrlBuf};
+	let input = json!({"fam": "uri", "data_url_a": crate::engine::bytes_json(a), "data_url_b": crate::engine::bytes_json(b)});
+	let r = crate::engine::guard(|| {
+		let (oa, ob) = (DataUrlBuf::new(a.to_vec()).ok().unwrap(), DataUrlBuf::new(b.to_vec()).ok().unwrap());
+		let (ba, bb) = (DataUrl::new(a).ok().unwrap(), DataUrl::new(b).ok().unwrap());
+		let owned = (oa == ob, oa.cmp(&ob), oa.partial_cmp(&ob));
+		let borrowed = (ba == bb, ba.cmp(bb), ba.partial_cmp(bb));
+		let hash_ok = !(oa == ob) || fnv_hash(&oa) == fnv_hash(&ob);
+		(owned, borrowed, hash_ok)
+	});
+	match r {
+		crate::engine::Guard::Ok((owned, borrowed, hash_ok)) => {
+			if owned != borrowed {
+				Some(Violation::new("C08", "data-url-pairs", "owned-vs-borrowed", input).obs(format!("owned (==, cmp, partial_cmp) = {:?}, borrowed = {:?}", owned, borrowed)).exp("identical results whether the two values are held owned or borrowed"))
+			} else if !hash_ok {
+				Some(Violation::new("C08", "data-url-pairs", "eq-but-hash-differs", input).obs("a == b but the hashes differ").exp("equal values hash identically"))
+			} else {
+				None
+			}
+		}
+		crate::engine::Guard::Panic(pm) => Some(Violation::new("C08", "data-url-pairs", "panic", input).obs(format!("panic: {pm}")).exp("no panic")),
+	}
 }
 
 /// C08 for the data-URL pair: the owned value and its borrowed view hash, compare and look up alike.
@@ -457,6 +512,12 @@ pub fn replay_c08(ctx: &Ctx, check: &str, input: &Value) -> Vec<Violation> {
 		Some(f) => f,
 		None => return vec![],
 	};
+	if check == "data-url-pairs" {
+		return match (crate::engine::json_bytes(&input["data_url_a"]), crate::engine::json_bytes(&input["data_url_b"])) {
+			(Some(a), Some(b)) => data_url_pair_case(&a, &b).into_iter().collect(),
+			_ => vec![],
+		};
+	}
 	if check == "data-url-views" {
 		return crate::engine::json_bytes(&input["data_url"]).map(|t| data_url_views_case(&t)).unwrap_or_default();
 	}
